@@ -242,6 +242,16 @@ def loop_shape(it, rep, root, box, E, NK, where):
     rep.ob('R16.2', key + ':condition', bool(c5), 'the loop condition is not !compare_exchange(addr, &old, new): a failed exchange would not retry with the refreshed expected value', where=where)
     c6 = var(last) is new and new is not None
     rep.ob('R16.2', key + ':value', bool(c6), 'the value of the atomic compound assignment is %s, not the value `new` that the successful exchange installed (a separate re-read is not linearizable)' % kind(last), where=where)
+    def vty(v):
+        return v.fields.get('ty') if isinstance(v, Obj) else None
+    lty = box['l'].fields.get('ty'); rty = box['r'].fields.get('ty')
+    tys_ok = vty(val) is rty and vty(old) is lty and vty(new) is lty
+    what = []
+    if vty(val) is not rty:
+        what.append('`val` does not have the type of the right operand (it has %s): the operand is converted before the operation instead of the operation being done in the common type (C11 6.5.16.2p3: `_Atomic unsigned char c = 200; c /= 300` must give 0)' % ('the type of the left operand' if vty(val) is lty else 'another type'))
+    if vty(old) is not lty or vty(new) is not lty:
+        what.append('`old`/`new` do not have the type of the atomic object')
+    rep.ob('R16.2', key + ':temporary-types', tys_ok, '; '.join(what), where=where)
     distinct = len({id(x) for x in (addr, val, old, new) if x is not None}) == 4
     rep.ob('R16.2', key + ':distinct-temporaries', distinct, 'addr/val/old/new are not four distinct temporaries', where=where)
 
@@ -337,3 +347,20 @@ def run(P, rep, tier):
     r161(P, rep)
     r165(P, rep)
     r166(P, rep)
+
+
+def r_atomic_operand_type(P, rep, rule):
+    """for C01/C02: in the atomic rewrite of `A op= B` the operand B is kept at its own type, so the operation happens in the common type"""
+    from ..report import Report
+    sub = Report('C16')
+    r161(P, sub)
+    n = 0
+    for o in sub.obs:
+        if o['key'].endswith(':temporary-types'):
+            n += 1
+            if o['verdict'] == 'undecided':
+                rep.undecided(rule, 'parse.c:to_assign:atomic-operand-keeps-its-type', o['what'], where=o['where'])
+            else:
+                rep.ob(rule, 'parse.c:to_assign:atomic-operand-keeps-its-type', o['verdict'] == 'holds', o['what'], where=o['where'])
+    if n == 0:
+        rep.undecided(rule, 'parse.c:to_assign:atomic-operand-keeps-its-type', 'the compare-exchange rewrite of to_assign was not recognised (see C16 R16.2)')
